@@ -388,7 +388,7 @@ func main() {
 				if !ok {
 					return true
 				}
-				for _, l := range as.Lhs {
+				for li, l := range as.Lhs {
 					sel, ok := l.(*ast.SelectorExpr)
 					if !ok {
 						continue
@@ -397,13 +397,17 @@ func main() {
 					if f != "ver" && f != "uid" && f != "authLvl" {
 						continue
 					}
+					rhs := "?"
+					if len(as.Rhs) == len(as.Lhs) {
+						rhs = src(as.Rhs[li])
+					}
 					base := src(sel.X)
 					last := base
 					if i := strings.LastIndex(base, "."); i >= 0 {
 						last = base[i+1:]
 					}
 					if last == "s" || last == "sess" || strings.HasSuffix(last, "Sess") || strings.HasSuffix(last, "Session") {
-						foreign = append(foreign, filepath.Base(fn)+":"+fd.Name.Name+":"+src(l))
+						foreign = append(foreign, filepath.Base(fn)+":"+fd.Name.Name+":"+src(l)+" = "+rhs)
 					}
 				}
 				return true
